@@ -6,6 +6,7 @@
 package dsmr
 
 import (
+	"github.com/ava-labs/avalanchego/ids"
 	"github.com/ava-labs/avalanchego/utils/wrappers"
 
 	"github.com/ava-labs/hypersdk/codec"
@@ -29,5 +30,18 @@ func NewBlockVerif(header BlockHeader, certs []*ChunkCertificate) (Block, error)
 	}
 	blk.blkBytes = packer.Bytes
 	blk.blkID = utils.ToID(blk.blkBytes)
+	return blk, nil
+}
+
+// NewBlockWithIDVerif is NewBlockVerif with a caller-chosen block ID.  BuildBlock derives the ID from
+// the marshalled block, which covers the chunk certificates only (the embedded BlockHeader carries
+// no serialize tag), so two blocks with the same certificates would share an ID; a harness that
+// keys a chain index by block ID needs distinct IDs for distinct blocks.
+func NewBlockWithIDVerif(header BlockHeader, certs []*ChunkCertificate, id ids.ID) (Block, error) {
+	blk, err := NewBlockVerif(header, certs)
+	if err != nil {
+		return Block{}, err
+	}
+	blk.blkID = id
 	return blk, nil
 }
